@@ -1,9 +1,223 @@
-import Driver.Util
-/-! Driver for C10: not built yet. -/
+import Driver.TransportCommon
+/-! Driver for C10 (unit level): model correspondence + the property's specification on the
+implementation's own outputs (results and table snapshots):
+* a received message changes only the exchange identified by (session, exchange id, role), or opens
+  exactly one new accept-pending exchange, or changes nothing;
+* the outcome is the one the gate demands: owner ⇒ delivered to it; otherwise opened iff initiator
+  flag ∧ opcode may open ∧ session not expired ∧ a slot is free; answers to unknown exchanges dropped;
+* the orphan sweep discards a waiting message iff its session vanished, its exchange is unknown or
+  its exchange was dropped; the accept sweep discards iff the exchange is still accept-pending and
+  the accept deadline has passed, and marks it dropped;
+* the closer finds every dropped exchange: it frees the slot (sending the acknowledgement still
+  owed) or closes the session when a retransmission is still pending; it answers `none` only if no
+  dropped exchange exists. -/
 namespace Driver.C10
+open Driver.TC
 
-def run : IO UInt32 := do
-  IO.eprintln "C10: driver not built yet"
-  return 2
+structure OSt where
+  prev : ISnap := {}
+  now : Nat := 1000
+  /-- (uid, slot) → time the last message was accepted for that exchange -/
+  recvAt : List ((Nat × Nat) × Nat) := []
+
+structure St where
+  m : MSt := {}
+  o : OSt := {}
+  /-- `sys` cases: is this a system-level case, and how many replies the injected datagrams may cause -/
+  sys : Bool := false
+  allowed : Nat := 0
+
+/-! ### system-level monitor (`sys` cases: two real nodes, unsolicited datagrams)
+Specification: a datagram that belongs to no session and is not a session-establishment request is
+answered at most once — with the unsecured `SessionNotFound` report the specification asks for when
+the datagram claims a *secure* session the node does not have — and never when it is itself unsecured
+(then it is an answer / status / ack for an unknown exchange and must be dropped, otherwise two nodes
+answer each other's answers forever). -/
+
+def hexVal (c : Char) : Nat :=
+  if c.isDigit then c.toNat - '0'.toNat else if 'a' ≤ c && c ≤ 'f' then c.toNat - 'a'.toNat + 10 else 0
+
+def unhex (s : String) : List Nat :=
+  let rec go : List Char → List Nat
+    | a :: b :: rest => (hexVal a * 16 + hexVal b) :: go rest
+    | _ => []
+  go s.toList
+
+/-- replies the specification allows for one injected datagram -/
+def repliesAllowed (bytes : List Nat) : Nat :=
+  let sess := bytes.getD 1 0 + 256 * bytes.getD 2 0
+  let group := (bytes.getD 3 0) % 4 == 1
+  if sess != 0 && !group then 1 else 0
+
+def sysStep (st : St) (w : List String) (res : String) : St × String :=
+  match w.getD 0 "" with
+  | "inj" => ({ st with allowed := st.allowed + repliesAllowed (unhex (w.getD 3 "")) }, "ok")
+  | "run" =>
+    match words res with
+    | ["sent", a, b] =>
+      let total := a.toNat?.getD 0 + b.toNat?.getD 0
+      if total > st.allowed then
+        (st, s!"ORA {total} datagrams were sent in answer to unsolicited datagrams that allow at most {st.allowed}: answers to unknown sessions/exchanges are answered again")
+      else (st, "ok")
+    | _ => (st, "BAD run result")
+  | _ => (st, "BAD sys op")
+
+def ownerIdx (s : ISess) (exch : Nat) (initiator : Bool) : Option Nat :=
+  let rec go : List (Option ISlot) → Nat → Option Nat
+    | [], _ => none
+    | (some e) :: rest, i => if e.id == exch && e.isResponder == initiator then some i else go rest (i + 1)
+    | none :: rest, i => go rest (i + 1)
+  go s.slots 0
+
+/-- slots of `a` and `b` agree everywhere except (possibly) at index `k` -/
+def sameExcept (a b : List (Option ISlot)) (k : Option Nat) : Bool :=
+  let n := max a.length b.length
+  (List.range n).all (fun i => some i == k || a.getD i none == b.getD i none)
+
+def othersUnchanged (p q : ISnap) (uid : Nat) : Bool :=
+  p.sessions.all (fun s => s.uid == uid ||
+    match q.sess s.uid with
+    | some s' => s'.slots == s.slots
+    | none => true)
+
+def gate (s : ISess) (exch : Nat) (initiator : Bool) (opc : String) : String :=
+  match ownerIdx s exch initiator with
+  | some _ => "old"
+  | none =>
+    if !initiator || opc = "a" || opc = "s" then "err NoExchange"
+    else if s.expired then "err NoSession"
+    else if s.live.length ≥ Consts.maxExchanges then "err NoSpaceExchanges"
+    else "new"
+
+/-- sessions a header (port, session id) addresses, by the snapshot -/
+def addressed (o : OSt) (port sid : Nat) : List ISess :=
+  o.prev.sessions.filter (fun s => s.lsid == sid && !s.reserved && ((s.mode != "x") == (sid != 0)) && s.port == port)
+
+def oracle (o : OSt) (w : List String) (res : String) (snap : ISnap) : OSt × Option String :=
+  let n (i : Nat) : Nat := ((w.getD i "").toNat?).getD 0
+  let rw := words res
+  let fin (o : OSt) (v : Option String) : OSt × Option String := ({ o with prev := snap }, v)
+  match w.getD 0 "" with
+  | "t" => fin { o with now := o.now + n 1 } none
+  | "rx" =>
+    let uid := n 1
+    match o.prev.sess uid, snap.sess uid with
+    | some p, some q =>
+      let init := w.getD 4 "" = "I"
+      let owner := ownerIdx p (n 3) init
+      let want := gate p (n 3) init (w.getD 7 "n")
+      let others := othersUnchanged o.prev snap uid
+      let o' := if res = "old" || res = "new" then
+          match ownerIdx q (n 3) init with
+          | some i => { o with recvAt := ((uid, i), o.now) :: o.recvAt.filter (·.1 != (uid, i)) }
+          | none => o
+        else o
+      let v : Option String :=
+        if !others then some "a received message changed exchanges of another session"
+        else if res = "err Duplicate" then
+          (if q.slots == p.slots then none else some "a message rejected as duplicate changed an exchange")
+        else if res != want then some s!"outcome '{res}' but the exchange gate demands '{want}'"
+        else if res = "old" then
+          (if sameExcept p.slots q.slots owner then none else some "delivery changed an exchange other than the owner")
+        else if res = "new" then
+          match ownerIdx q (n 3) init with
+          | some i =>
+            if !sameExcept p.slots q.slots (some i) then some "opening an exchange changed another slot"
+            else if (p.slots.getD i none).isSome then some "a live slot was overwritten by a new exchange"
+            else if (q.slots.getD i none).any (fun e => e.role == "RP") then none
+            else some "new exchange is not accept-pending"
+          | none => some "new exchange not found in the table"
+        else (if q.slots == p.slots then none else some s!"'{res}' but the exchanges changed")
+      fin o' v
+    | none, _ => fin o (if res = "nosess" then none else some "message processed for a session that does not exist")
+    | _, _ => fin o none
+  | "tx" =>
+    -- `pre_send` clears the receive time of the exchange it sends on
+    match (w.getD 2 "-").toNat? with
+    | some sl => fin { o with recvAt := o.recvAt.filter (·.1 != (n 1, sl)) } none
+    | none => fin o none
+  | "own" =>
+    match o.prev.sess (n 1) with
+    | some p =>
+      let want := showOpt (ownerIdx p (n 2) (w.getD 3 "" = "I"))
+      fin o (if res = want then none else some s!"owner lookup answered {res}, specification {want}")
+    | none => fin o none
+  | "acc" =>
+    match o.prev.sess (n 1), snap.sess (n 1) with
+    | some p, some q =>
+      let was := (p.slots.getD (n 2) none).any (fun e => e.role == "RP")
+      let v := if (res = "ok") != was then some s!"accept answered {res} for a slot that {if was then "was" else "was not"} accept-pending"
+        else if res = "ok" && !(q.slots.getD (n 2) none).any (fun e => e.role == "RO") then some "accepted exchange is not owned"
+        else if !sameExcept p.slots q.slots (some (n 2)) then some "accept changed another slot"
+        else none
+      fin o v
+    | _, _ => fin o none
+  | "swo" | "swa" =>
+    match addressed o (n 1) (n 2) with
+    | [] =>
+      fin o (if w.getD 0 "" = "swo" then (if res = "cleared" then none else some "message for a vanished session was not discarded")
+             else (if res = "kept" then none else some "accept sweep discarded a message without a session"))
+    | [p] =>
+      let init := w.getD 4 "" = "I"
+      match ownerIdx p (n 3) init with
+      | none =>
+        fin o (if w.getD 0 "" = "swo" then (if res = "cleared" then none else some "message for an unknown exchange was not discarded")
+               else (if res = "kept" then none else some "accept sweep discarded a message without an exchange"))
+      | some i =>
+        let e := (p.slots.getD i none).getD default
+        if w.getD 0 "" = "swo" then
+          fin o (if (res = "cleared") == e.isDropped then none
+                 else some s!"orphan sweep answered {res} for an exchange in state {e.role}")
+        else
+          let t0 := (o.recvAt.find? (·.1 == (p.uid, i))).map (·.2)
+          match t0 with
+          | none => fin o none
+          | some t0 =>
+            let due := e.role == "RP" && o.now ≥ t0 + Consts.acceptTimeoutMs
+            let after := ((snap.sess p.uid).bind (fun q => q.slots.getD i none)).map (·.role)
+            fin o (if (res = "cleared") != due then some s!"accept sweep answered {res}: state {e.role}, waited {o.now - t0} ms"
+                   else if due && after != some "RD" then some "accept-timed-out exchange not marked dropped"
+                   else none)
+    | _ => fin o none   -- several sessions share the coordinates: nothing demanded
+  | "swd" =>
+    let dropped := o.prev.sessions.flatMap (fun s => s.live.filter (·.isDropped) |>.map (fun e => (s, e)))
+    match rw.head? with
+    | some "none" => fin o (if dropped.isEmpty then none else some "the closer found nothing although a dropped exchange exists")
+    | some "exch" =>
+      -- some dropped exchange without pending retransmission was freed; the ack still owed was sent
+      let gone := dropped.filter (fun (s, e) => e.rt.isNone &&
+        !((snap.sess s.uid).any (fun q => q.live.any (fun f => f.id == e.id && f.role == e.role))))
+      match gone with
+      | [(_, e)] =>
+        let owed := e.ak.bind (fun a => if a.2 then none else some a.1)
+        let sent := if rw.getD 1 "" = "ack" then (rw.getD 2 "").toNat? else none
+        fin o (if dropped.any (fun (_, e) => e.rt.isSome) then some "closer freed an exchange although another one needs its session closed first"
+               else if owed.isSome && sent != owed then some s!"dropped exchange closed without the acknowledgement it owed ({showOpt owed})"
+               else none)
+      | _ => fin o (some "closer reported an exchange closed but none (or several) disappeared")
+    | some "sess" =>
+      let cand := dropped.filter (fun (s, e) => e.rt.isSome && (snap.sess s.uid).isNone)
+      fin o (if cand.isEmpty then some "closer closed a session that had no dropped exchange with a pending retransmission" else none)
+    | _ => fin o none
+  | _ => fin o none
+
+def step (st : St) (line : String) : St × String :=
+  let (op, out) := splitArrow line
+  match words op with
+  | "case" :: _ :: kind => ({ m := newCase kind, sys := kind.head? = some "sys" }, "case")
+  | w =>
+    if st.sys then sysStep st w out else
+    let (res, snapS) := splitHash out
+    let (m', dis) := modelStep st.m op out
+    let (o', ora) := if st.m.isMrp then (st.o, none) else oracle st.o w res (parseSnap snapS)
+    let st' : St := { m := m', o := o' }
+    match ora with
+    | some why => (st', s!"ORA {why}")
+    | none =>
+      match dis with
+      | some mo => (st', s!"DIS {mo}")
+      | none => (st', "ok")
+
+def run : IO UInt32 := Driver.runLoop ({} : St) step
 
 end Driver.C10
